@@ -144,8 +144,9 @@ def find_quantiles(
     list[float]
         _description_
     """
+    # sorted distinct quantiles (sub-quantiles of a tied run can coincide)
     return list(
-        sort(
+        unique(
             np_find_quantiles(
                 df_feature[~isnan(df_feature)],  # getting rid of missing values
                 q,
